@@ -214,6 +214,13 @@ func avKey(args []av) string {
 
 // summary returns the abstract results of fn called with args in the EOF steady state.
 func (e *eofEngine) summary(fn *ssa.Function, args []av) []av {
+	// on the second pass a callee is summarised on its inlined view (a header read by a private
+	// helper that returns a small struct is then a handful of registers)
+	if e.c != nil && e.c.ViewMode {
+		if v := e.c.viewOf(fn); v != nil {
+			fn = v
+		}
+	}
 	n := fn.Signature.Results().Len()
 	top := make([]av, n)
 	for i := range top {
